@@ -10,6 +10,9 @@ import ObiVerif.Lemmas.PESingleDiag
 import ObiVerif.Lemmas.PEFragment
 import ObiVerif.Lemmas.PEQual
 import ObiVerif.Lemmas.PEAnnot
+import ObiVerif.Lemmas.PEFastArena
+import ObiVerif.Lemmas.PESide
+import ObiVerif.Lemmas.PEBound
 /-!
 # C08 — paired-end assembly: valid path, optimal score, correct consensus (property theorems)
 
@@ -729,5 +732,187 @@ on a rounding boundary (where the model prints `~` instead) -/
 theorem ratio_rounding_exact (num den k : Int) (hd : 0 < den) (h : thousandths num den = some k) :
     2 * den * k ≤ 2000 * num + den ∧ 2000 * num + den < 2 * den * k + 2 * den ∧ 2000 * num - den ≠ 2 * den * (k - 1) :=
   thousandths_spec num den k hd h
+
+/-! ## third deepening round -/
+
+/-! ### fast mode: history independence of everything one worker reuses from pair to pair -/
+
+/-- **`Index4mer` on a reused index** (seeded/C08-m1 was a stale index): whatever the 256 position lists held
+(the 4-mers of the previous forward read), after the call cell `c` holds exactly the positions of code `c` in the
+new read, and the counting loop of `FastShiftFourMer` over these lists computes `shiftCounts` of the two reads;
+with the `shifts` map empty at entry the vote is `fastShift` and the map is empty again at exit. -/
+theorem index_history_independent (rel : Bool) (a b : Bytes) (idx0 : FIndex) :
+    (∀ c, c < 256 → (index4mer idx0 (encode4mer a)).getD c [] = fa_posList c 0 (encode4mer a)) ∧
+    shiftCountsIdx (index4mer idx0 (encode4mer a)) (encode4mer b) [] = shiftCounts (encode4mer a) (encode4mer b) ∧
+    fastShiftIdx rel a.length b.length (index4mer idx0 (encode4mer a)) (encode4mer b) [] = (fastShift rel a b, []) :=
+  ⟨fun c hc => index4mer_getD idx0 _ c hc, shiftCountsIdx_eq idx0 _ _, fastShiftIdx_eq rel a b idx0⟩
+
+/-- **the path slice of fast mode** (was: "the buffer is not modelled there, only the returned path").  The two
+extension statements `path[0] += extra5` / `append([]int{extra5,0}, path...)` and `path[len-2] += extra3` /
+`append(path, extra3, 0)`, executed through the slice — a window of the arena buffer (`(*path)[p:cap]` after
+`_Backtracking`, `append(arena.path[:0], 0, partLen)` in the identical-overlap branch, with the in-place
+`append` when four cells are available) or a fresh array — give `extend3 (extend5 …)` of the slice content, for
+every buffer; no index is out of range; the buffer keeps its length. -/
+theorem fast_path_slice (e5 e3 : Int) (buf : List Int) (pl : PLoc) (h : fa_wf buf pl) (hl : 2 ≤ plLen pl) :
+    ∃ buf' pl', extendC e5 e3 buf pl = some (buf', pl') ∧
+      plList buf' pl' = extend3 e3 (extend5 e5 (plList buf pl)) ∧ buf'.length = buf.length :=
+  extendC_spec e5 e3 buf pl h hl
+
+/-- **fast mode is history independent** (like C09's `fastLCS_history_independent`): `PEAlign` in fast mode on
+the whole state of a worker — 4-mer index left by ANY previous forward read, flat score / path matrices and
+path buffer of ANY size and content, `shifts` map empty as every call leaves it — returns the result of the
+recurrence level (`peAlignFastFrom` on the vote `fastShift`), hence the same result for any two histories; all
+fast-mode theorems (`fast_path_consumes`, `fast_score_is_path`, `pealign_fast`) are about this function, which
+is what the driver executes for op `fa`. -/
+theorem fast_history_independent (s : Nat → Nat → Int) (g : Int) (rel : Bool) (a b : Bytes) (delta : Nat)
+    (ar ar' : Arena) (idx idx' : FIndex) (ha : 0 < a.length) (hb : 0 < b.length) :
+    (peAlignFastC s g rel a b delta ⟨ar, idx, []⟩).map (fun o => (o.res, o.vote, o.shifts)) =
+      (peAlignFastFrom s g a.length b.length delta (fastShift rel a b).shift (fastShift rel a b).count).map
+        (fun r => (r, fastShift rel a b, [])) ∧
+    (peAlignFastC s g rel a b delta ⟨ar, idx, []⟩).map (fun o => (o.res, o.vote, o.shifts)) =
+      (peAlignFastC s g rel a b delta ⟨ar', idx', []⟩).map (fun o => (o.res, o.vote, o.shifts)) := by
+  have h1 := peAlignFastC_eq s g rel a b delta ar idx ha hb
+  have h2 := peAlignFastC_eq s g rel a b delta ar' idx' ha hb
+  exact ⟨h1, by rw [h1, h2]⟩
+
+/-- tests on sample inputs: the identical-overlap path `[0, 6]` at the start of a 5-cell buffer full of stale
+values, 2 bases of A in front and 2 of B behind: built in place in cells 0..3; in a 3-cell buffer the second
+`append` reallocates; a window at the END of the buffer (after `_Backtracking`) with the other gap in front:
+`append([]int{extra5, 0}, path...)` leaves the buffer alone -/
+example : extendC (-2) 2 [0, 6, 4242, 4242, 4242] (.arena 0 2) = some ([-2, 6, 2, 0, 4242], .arena 0 4) := by decide
+example : extendC (-2) 2 [0, 6, 4242] (.arena 0 2) = some ([-2, 6, 4242], .fresh [-2, 6, 2, 0]) := by decide
+example : extendC (-3) 0 [7, 7, 1, 4] (.arena 2 2) = some ([7, 7, 1, 4], .fresh [-3, 0, 1, 4, 0, 0]) := by decide
+
+/-! ### error-free reassembly: the B-first geometry and which scheme wins -/
+
+/-- **the closed condition, B first / right scheme** (was: A-first geometry / left scheme only).  `b = X ++ O`,
+`a = O ++ Y`: a table positive on the true diagonal `(k, d+k)` and negative on every other pair of positions, gap
+penalty ≤ 0, makes the true path `[d, ov, -e, 0]` strict in the RIGHT matrix (by transposition of
+`errorfree_single_diagonal_strict`: `isFill_transpose`, `strictAlong_transpose`). -/
+theorem errorfree_single_diagonal_strict_right (s : Nat → Nat → Int) (g : Int) (d ov e : Nat) (hov : 0 < ov) (hg : g ≤ 0)
+    (hpos : ∀ k, k < ov → 0 < s k (d + k))
+    (hneg : ∀ i j, i < ov + e → j < d + ov → j ≠ d + i → s i j < 0) :
+    strictAlong (Mf s (cARight g (d + ov)) (cBRight g) (ov + e)) s (cARight g (d + ov)) (cBRight g) 0 0
+      (stepsOf [(d : Int), (ov : Int), -(e : Int), 0]) = true :=
+  strictAlong_single_diagonal_right d ov e hov (isFill_cells s (cARight g (d + ov)) (cBRight g) (ov + e) (d + ov))
+    (fun j => by unfold cARight; split <;> omega) (fun i => by unfold cBRight; split <;> omega)
+    (by simp [cBRight]) (by simp [cARight]) hpos hneg
+
+/-- **which scheme wins under the closed condition** (was: hypothesis `hside`).  A first (`d` bases of A before
+B starts, `e` bases of B after A ended), gap penalty < 0 and `d > 0 ∨ e > 0`: the right optimum is STRICTLY below
+the left optimum, so exact mode keeps the left alignment.  B first: the left optimum never exceeds the right
+one, so exact mode keeps the right alignment (`scoreL > scoreR` is false). -/
+theorem errorfree_which_scheme_wins (s : Nat → Nat → Int) (g : Int) (d ov e : Nat) (hov : 0 < ov) :
+    (g < 0 → (0 < d ∨ 0 < e) →
+      (∀ k, k < ov → 0 < s (d + k) k) → (∀ i j, i < d + ov → j < ov + e → i ≠ d + j → s i j < 0) →
+      Mf s (cARight g (ov + e)) (cBRight g) (d + ov) (d + ov) (ov + e)
+        < Mf s (cALeft g) (cBLeft g (d + ov)) (d + ov) (d + ov) (ov + e)) ∧
+    (g ≤ 0 →
+      (∀ k, k < ov → 0 < s k (d + k)) → (∀ i j, i < ov + e → j < d + ov → j ≠ d + i → s i j < 0) →
+      Mf s (cALeft g) (cBLeft g (ov + e)) (ov + e) (ov + e) (d + ov)
+        ≤ Mf s (cARight g (d + ov)) (cBRight g) (ov + e) (ov + e) (d + ov)) :=
+  ⟨fun hg hde hpos hneg => right_lt_left_single_diagonal s g d ov e hov hg hde hpos hneg,
+   fun hg hpos hneg => left_le_right_single_diagonal s g d ov e hov hg hpos hneg⟩
+
+/-- **error-free reassembly under the closed condition, B first, end to end, no side hypothesis**: exact mode
+returns a right alignment and `BuildQualityConsensus` along the returned path spells the fragment `X ++ O ++ Y` -/
+theorem errorfree_reassembly_closed_right (s : Nat → Nat → Int) (g : Int) (adj : UInt8 → UInt8) (a qa b qb : Bytes)
+    (d ov e : Nat) (hov : 0 < ov) (hg : g ≤ 0) (hla : a.length = ov + e) (hlb : b.length = d + ov)
+    (hqa : qa.length = a.length) (hqb : qb.length = b.length)
+    (ha : ∀ x ∈ a, x ∈ sym15) (hb : ∀ x ∈ b, x ∈ sym15)
+    (herr : ∀ k, k < ov → a.getD k 32 = b.getD (d + k) 32)
+    (hpos : ∀ k, k < ov → 0 < s k (d + k))
+    (hneg : ∀ i j, i < ov + e → j < d + ov → j ≠ d + i → s i j < 0) :
+    ∃ res c, peAlignExact s g a.length b.length = some res ∧ res.isLeft = false ∧
+      consensus adj a qa b qb res.path = some c ∧ c.seq = b ++ a.drop ov := by
+  have hstrict := errorfree_single_diagonal_strict_right s g d ov e hov hg hpos hneg
+  have hside := left_le_right_single_diagonal s g d ov e hov hg hpos hneg
+  rw [← hla, ← hlb] at hstrict hside
+  obtain ⟨res, c, h1, h2, _, h4, h5⟩ :=
+    errorfree_reassembly_right s g adj a qa b qb d ov e hov hla hlb hqa hqb ha hb herr (by omega) hstrict
+  exact ⟨res, c, h1, h2, h4, h5⟩
+
+/-- **error-free reassembly under the closed condition, A first, end to end, no side hypothesis** (gap penalty
+< 0).  With an overhang (`d > 0 ∨ e > 0`) the left scheme wins strictly; without (`d = e = 0`: the reads are the
+same stretch) the geometry is also "B first" and the right alignment is kept: in both cases the consensus along
+the returned path is the fragment `a ++ b.drop ov`. -/
+theorem errorfree_reassembly_closed_left (s : Nat → Nat → Int) (g : Int) (adj : UInt8 → UInt8) (a qa b qb : Bytes)
+    (d ov e : Nat) (hov : 0 < ov) (hg : g < 0) (hla : a.length = d + ov) (hlb : b.length = ov + e)
+    (hqa : qa.length = a.length) (hqb : qb.length = b.length)
+    (ha : ∀ x ∈ a, x ∈ sym15) (hb : ∀ x ∈ b, x ∈ sym15)
+    (herr : ∀ k, k < ov → a.getD (d + k) 32 = b.getD k 32)
+    (hpos : ∀ k, k < ov → 0 < s (d + k) k)
+    (hneg : ∀ i j, i < d + ov → j < ov + e → i ≠ d + j → s i j < 0) :
+    ∃ res c, peAlignExact s g a.length b.length = some res ∧ res.isLeft = decide (0 < d ∨ 0 < e) ∧
+      consensus adj a qa b qb res.path = some c ∧ c.seq = a ++ b.drop ov := by
+  by_cases hde : 0 < d ∨ 0 < e
+  · have hside := right_lt_left_single_diagonal s g d ov e hov hg hde hpos hneg
+    rw [← hla, ← hlb] at hside
+    obtain ⟨res, c, h1, h2, h4, h5⟩ :=
+      errorfree_reassembly_single_diagonal s g adj a qa b qb d ov e hov (by omega) hla hlb hqa hqb ha hb herr hpos hneg hside
+    exact ⟨res, c, h1, by rw [h2]; simp [hde], h4, h5⟩
+  · have hd : d = 0 := by omega
+    have he : e = 0 := by omega
+    subst hd he
+    have hla' : a.length = ov + 0 := by omega
+    have hlb' : b.length = 0 + ov := by omega
+    obtain ⟨res, c, h1, h2, h4, h5⟩ :=
+      errorfree_reassembly_closed_right s g adj a qa b qb 0 ov 0 hov (by omega) hla' hlb' hqa hqb ha hb
+        (fun k hk => by have := herr k hk; simpa using this)
+        (fun k hk => by have := hpos k hk; simpa using this)
+        (fun i j hi hj hij => hneg i j (by omega) (by omega) (by omega))
+    refine ⟨res, c, h1, by rw [h2]; simp, h4, ?_⟩
+    -- the fragment: b ++ a.drop ov = a ++ b.drop ov when both reads are the same `ov` bases
+    rw [h5]
+    have e1 : a.drop ov = [] := List.drop_eq_nil_of_le (by omega)
+    have e2 : b.drop ov = [] := List.drop_eq_nil_of_le (by omega)
+    rw [e1, e2, List.append_nil, List.append_nil]
+    apply List.ext_getElem?
+    intro k
+    by_cases hk : k < ov
+    · have := herr k hk
+      simp only [Nat.zero_add, List.getD_eq_getElem?_getD] at this
+      have h1 : k < a.length := by omega
+      have h2 : k < b.length := by omega
+      rw [List.getElem?_eq_getElem h1, List.getElem?_eq_getElem h2] at this ⊢
+      simpa using this.symm
+    · rw [List.getElem?_eq_none (by omega), List.getElem?_eq_none (by omega)]
+
+/-! ### Go `int`: no overflow -/
+
+/-- **the `Int` model is valid for all reads shorter than 2^31** (was: "far from 2^63").  With every column score
+and the gap penalty within ±2^20 (the harness checks every score it hands over and the gap penalty against this
+bound on every case; the real tables stay below 2^11): every cell of both matrices AND every intermediate value
+the Go code holds in an `int` (`diag + score`, `left + gapPenalty`, `top + gapPenalty`) is strictly inside
+(−2^62, 2^62) ⊂ int64; in general `|M i j| ≤ (i + j)·B` (`fill_abs_bound`), `|score of a consuming path| ≤
+(la + lb)·B` (`scoreOf_abs_bound`), `|diagScore n| ≤ n·B`. -/
+theorem int_model_valid (s : Nat → Nat → Int) (g : Int) (la lb : Nat) (hla : la < 2^31) (hlb : lb < 2^31)
+    (hs : ∀ i j, i < la → j < lb → -(2^20 : Int) ≤ s i j ∧ s i j ≤ 2^20)
+    (hg : -(2^20 : Int) ≤ g ∧ g ≤ 2^20) :
+    (bd_NoOverflow s (cALeft g) (cBLeft g la) la lb (Mf s (cALeft g) (cBLeft g la) la) ∧
+     bd_NoOverflow s (cARight g lb) (cBRight g) la lb (Mf s (cARight g lb) (cBRight g) la)) ∧
+    (∀ r, peAlignExact s g la lb = some r → -(2^62 : Int) < r.score ∧ r.score < 2^62) ∧
+    (∀ n i j, n < 2^31 → (∀ k, k < n → -(2^20 : Int) ≤ s (i + k) (j + k) ∧ s (i + k) (j + k) ≤ 2^20) →
+      -(2^62 : Int) < diagScore s n i j ∧ diagScore s n i j < 2^62) :=
+  ⟨fillLeft_fillRight_no_overflow s g la lb hla hlb hs hg,
+   (fill_scores_no_overflow s g la lb hla hlb hs hg).2.2,
+   fun n i j hn h => diagScore_no_overflow s n i j hn h⟩
+
+/-- the general bound behind it: `|M i j| ≤ (i + j)·B` for every fill whose scores and costs are within ±B -/
+theorem score_abs_bound {s : Nat → Nat → Int} {cA cB : Nat → Int} {la lb : Nat} {M P : Nat → Nat → Int} (B : Int) (hB : 0 ≤ B)
+    (hf : IsFill s cA cB la lb M P)
+    (hs : ∀ i j, i < la → j < lb → -B ≤ s i j ∧ s i j ≤ B)
+    (hcA : ∀ j, -B ≤ cA j ∧ cA j ≤ B) (hcB : ∀ i, -B ≤ cB i ∧ cB i ≤ B) :
+    (∀ (j i : Nat), i ≤ la → j ≤ lb → -(((i + j : Nat) : Int) * B) ≤ M i j ∧ M i j ≤ ((i + j : Nat) : Int) * B) ∧
+    (∀ p, consumes p la lb →
+      -(((la + lb : Nat) : Int) * B) ≤ scoreOf s cA cB p ∧ scoreOf s cA cB p ≤ ((la + lb : Nat) : Int) * B) :=
+  ⟨fill_abs_bound B hB hf hs hcA hcB, fun p hp => scoreOf_abs_bound s cA cB la lb B hB hs hcA hcB p hp⟩
+
+/-- non-vacuity (test on one input) of `int_model_valid`: match +2 / mismatch −1, gap −3, reads of 3 bases -/
+example : (bd_NoOverflow (fun i j => if i = j then (2 : Int) else -1) (cALeft (-3)) (cBLeft (-3) 3) 3 3
+      (Mf (fun i j => if i = j then 2 else -1) (cALeft (-3)) (cBLeft (-3) 3) 3)) :=
+  (int_model_valid (fun i j => if i = j then 2 else -1) (-3) 3 3 (by decide) (by decide)
+    (fun i j _ _ => by split <;> decide) (by decide)).1.1
+
 
 end ObiVerif.Props.C08
